@@ -47,6 +47,11 @@ def run_one(prop, name, patch, tier="quick", extra_env=None):
         shutil.copytree(REPO, copy, symlinks=True,
                         ignore=shutil.ignore_patterns(".git", "__pycache__", "*.pyc", ".pytest_cache"))
         r = subprocess.run(["patch", "-p1", "-s", "-d", copy, "-i", patch], capture_output=True, text=True)
+        metaf = os.path.join(os.path.dirname(patch), "meta.json")
+        if r.returncode == 0 and os.path.exists(metaf) and json.load(open(metaf)).get("neutralised_at_head"):
+            # a later fix: commit made this change harmless on the current code: it is only meaningful on
+            # the commit it was written against
+            r = subprocess.CompletedProcess([], 1, "neutralised at HEAD", "")
         ported = os.path.join(os.path.dirname(patch), "ported.diff")
         if r.returncode != 0 and os.path.basename(patch) == "patch.diff" and os.path.exists(ported):
             # the same defect re-expressed on the current code (later fix: commits touch the same lines)
